@@ -1,7 +1,7 @@
 (* C20 — property theorems (statements only; proofs live in Proofs*.v). *)
 From Coq Require Import ZArith QArith Qround Qabs Bool List Sorted Permutation.
 Require Import QV.common.Util QV.common.Ctl QV.C20.Model QV.C20.Spec QV.C20.ProofsNum QV.C20.ProofsWin QV.C20.ProofsShrink.
-Require Import QV.C20.ForLoop QV.C20.Gen_performance QV.C20.GenEq QV.C20.ProofsAvg QV.C20.ProofsAvg2 QV.C20.ProofsMem QV.C20.ProofsMem2.
+Require Import QV.C20.ForLoop QV.C20.Gen_performance QV.C20.Gen_util QV.C20.GenEq QV.C20.ProofsAvg QV.C20.ProofsAvg2 QV.C20.ProofsMem QV.C20.ProofsMem2.
 Import ListNotations.
 Open Scope Q_scope.
 
@@ -148,13 +148,37 @@ Proof.
 Qed.
 Print Assumptions C20_flat_memory_read_write.
 
-(* ---- the loop kernels re-translated from /repo on every run compute the clean models ---- *)
+(* ---- the loop kernels re-translated from /repo on every run compute the clean models (GenEq.v; the proofs go through
+        a hand-written state transformer per loop iteration and never depend on the text of the generated body) ---- *)
 Theorem C20_translated_shrink_is_model : forall bs ls, length bs = length ls ->
   shrink_out (gen_shrink_overlapping_windows_numba bs ls) = shrink_loop (combine bs ls).
 Proof. exact gen_shrink_eq. Qed.
 Print Assumptions C20_translated_shrink_is_model.
 
 Theorem C20_translated_is_monotonic_is_model : forall xs,
-  gen_is_monotonic_numba xs = Ret (mono_loop (map inject_Z xs), xs).
+  gen_is_monotonic_numba xs = Ret (mono_loop (map inject_Z xs)).
 Proof. exact gen_is_monotonic_eq. Qed.
 Print Assumptions C20_translated_is_monotonic_is_model.
+
+(* _voltage_to_uint16_numba over exact reals: the translated loop is the model's volt_loop (one pass, flag, error after
+   the loop); the two guards are `2 ** resolution` with a negative exponent and the division by 2*amplitude = 0 *)
+Theorem C20_translated_voltage_to_uint16_is_model : forall vs amp off res,
+  gen_voltage_to_uint16_numba vs amp off res
+  = if (res <? 0)%Z then Fail
+    else if Qeq_bool (inject_Z 2 * amp) (inject_Z 0) then Fail
+    else match volt_loop amp off res vs with ORet cs => Ret cs | OErr => Fail end.
+Proof. exact gen_voltage_to_uint16_eq. Qed.
+Print Assumptions C20_translated_voltage_to_uint16_is_model.
+
+(* _time_windows_to_samples_sorted_numba over exact reals: output k is (round(begins[k]*rate), uint64(lengths[k]*rate)),
+   which is the model's `conv` for non-negative lengths (uint64() truncates towards zero) *)
+Theorem C20_translated_windows_sorted_is_model : forall bs ls sr, length bs = length ls ->
+  gen_time_windows_to_samples_sorted_numba bs ls sr
+  = Ret (map (fun b => rint (b * sr)) bs, map (fun l => py_trunc (l * sr)) ls)
+  /\ (Forall (fun l => 0 <= l * sr) ls ->
+      combine (map (fun b => rint (b * sr)) bs) (map (fun l => py_trunc (l * sr)) ls) = map (conv sr) (combine bs ls)).
+Proof.
+  intros bs ls sr H. split; [exact (gen_tw_sorted_eq bs ls sr H)|].
+  intro F. pose proof (gen_tw_sorted_is_conv bs ls sr H F) as G. rewrite (gen_tw_sorted_eq bs ls sr H) in G. exact G.
+Qed.
+Print Assumptions C20_translated_windows_sorted_is_model.
